@@ -113,6 +113,7 @@ def gen_config(rng, tier, index=0):
         "report": sorted(rng.sample(["AFP", "ACP", "AOP", "GP", "GL", "SNVDP", "AFPRIOR", "AOPSUM"], rng.choice([0, 0, 1, 2, 4]))),
         "temperatures": rng.choice([None, None, [0.3, 1.0]]),
         "variants": [],
+        "opt_picks": [rng.random() for _ in range(3)],
     }
     fail_batch = rng.random() < 0.35
     cfg["fail"] = None
@@ -206,15 +207,38 @@ class Batch:
             a += ["--report"] + rep
         return a
 
+    OPTIONS = {
+        "assemble": [["--mcmc-llk-cache-threshold", "-1"], ["--mcmc-llk-cache-threshold", "0"], ["--mcmc-fix-homozygous", "0.9"],
+                     ["--haplotype-posterior-threshold", "0.05"], ["--mcmc-recombination-step-probability", "1.0"], ["--inbreeding", "0.1"],
+                     ["--use-base-phred-scores"], ["--base-error-rate", "0.01"], ["--mapping-quality", "40"], ["--mcmc-dosage-step-probability", "0.5"]],
+        "call": [["--inbreeding", "0.1"], ["--use-base-phred-scores"], ["--mapping-quality", "40"], ["--base-error-rate", "0.01"]],
+        "call-exact": [["--inbreeding", "0.1"], ["--mapping-quality", "40"], ["--use-base-phred-scores"]],
+        "call-pedigree": [["--gamete-error", "0.1"], ["--gamete-error", "0.5"], ["--mapping-quality", "40"]],
+    }
+
+    def option_args(self, program):
+        """A tape-independent (config-chosen) handful of further CLI options: the property quantifies over configurations."""
+        picks = self.cfg.get("opt_picks") or []
+        opts = self.OPTIONS[program]
+        out, used = [], set()
+        for x in picks:
+            if x < 0.45:
+                continue
+            o = opts[int((x - 0.45) / 0.55 * len(opts)) % len(opts)]
+            if o[0] not in used:
+                used.add(o[0])
+                out += o
+        return out
+
     def mcmc_args(self, program):
         cfg = self.cfg
         if program == "call-exact":
-            return []
+            return self.option_args(program)
         a = ["--mcmc-steps", str(cfg["steps"]), "--mcmc-burn", str(cfg["steps"] // 3), "--mcmc-chains", str(cfg["chains"]),
              "--mcmc-seed", str(cfg["mcmc_seed"])]
         if program == "assemble" and cfg["temperatures"]:
             a += ["--mcmc-temperatures"] + [str(t) for t in cfg["temperatures"]]
-        return a
+        return a + self.option_args(program)
 
     def argv(self, program, ds, cores, bed=None, hapvcf=None, region=None):
         a = ["mchap", program]
@@ -537,6 +561,8 @@ def shrink_candidates(cfg, violation):
             out.append(c)
     if cfg["report"]:
         out.append(dict(cfg, report=[]))
+    if cfg.get("opt_picks"):
+        out.append(dict(cfg, opt_picks=[]))
     if cfg["chains"] > 1:
         out.append(dict(cfg, chains=1))
     if cfg["temperatures"]:
